@@ -49,7 +49,7 @@ JWE_PATHS = ["jwe.encrypt_compact", "jwe.encrypt_json.arg", "jwe.encrypt_json.at
              "jwe.decrypt_json.flat", "jwe.decrypt_json.general", "jwt.decode.jwe"]
 VARIANTS = ["ok", "ok-use", "ok-ops", "bad-use", "bad-ops", "empty-ops", "public-only", "kty-oct", "kty-RSA", "kty-EC", "kty-OKP-Ed", "kty-OKP-X",
             "other-curve", "short", "long", "empty", "short8", "short16", "long8", "long16", "rsa-1024", "sender-other-curve", "sender-other-kty",
-            "inverse-ops", "rsa-2047", "rsa-2040", "sender-wrong-use"]
+            "inverse-ops", "rsa-2047", "rsa-2040", "sender-wrong-use", "bad-use-with-ops"]
 JWE_OP = {"RSA": ("encrypt", "decrypt"), "KW": ("wrapKey", "unwrapKey"), "PBES2": ("deriveKey", "deriveKey")}
 
 
@@ -103,6 +103,10 @@ def make_variant(rng: Rng, base: RKey, variant: str, family: str, alg: str, enc:
         return with_params(base, {"key_ops": ops}), needs_private or kty == "oct", True
     if variant == "bad-use":
         return with_params(base, {"use": wrong_use}), needs_private or kty == "oct", False
+    if variant == "bad-use-with-ops":
+        # declared for the other purpose twice over (use and the key_ops that go with it): both say no
+        ops = ["sign", "verify"] if wrong_use == "sig" else ["encrypt", "decrypt", "wrapKey", "unwrapKey", "deriveKey", "deriveBits"]
+        return with_params(base, {"use": wrong_use, "key_ops": ops}), needs_private or kty == "oct", False
     if variant == "bad-ops":
         bad = [other_op] if sig else [x for x in ("encrypt", "decrypt", "wrapKey", "unwrapKey", "deriveKey") if x != op][:2]
         return with_params(base, {"key_ops": bad}), needs_private or kty == "oct", (False if ops_judged else None)
